@@ -443,7 +443,7 @@ func c22Sizes(thorough bool) []*c22Space {
 }
 
 // c22Sweeps: for every field of every frame type a large boundary menu, the other fields at
-// the rich baseline; crossed with all 16 header-flag nibbles (x HasServerVersion for CONNACK)
+// the rich baseline; crossed with the header-flag nibbles {0,F,5,A} (thorough: all 16) (x HasServerVersion for CONNACK)
 // and, for frames with a Setting byte that gates fields, with the 4 gate combinations.
 func c22Sweeps(thorough bool) []*c22Space {
 	lens := c22Lens(thorough)
